@@ -38,4 +38,13 @@ var props = map[string]propCfg{
 	"C20": one(part{Pkg: "./props/process", Test: "TestC20",
 		Quick:    tierCfg{Cases: 160, Shards: 8, Timeout: 15 * min, ShrinkTime: 45 * sec},
 		Thorough: tierCfg{Cases: 3000, Shards: 16, Timeout: 90 * min, ShrinkTime: 5 * min}}),
+	"C06": one(part{Pkg: "./props/static", Test: "TestC06",
+		Quick:    tierCfg{Cases: 96, Shards: 6, Timeout: 10 * min, ShrinkTime: 30 * sec},
+		Thorough: tierCfg{Cases: 1500, Shards: 14, Timeout: 60 * min, ShrinkTime: 5 * min}}),
+	"C07": one(part{Pkg: "./props/static", Test: "TestC07",
+		Quick:    tierCfg{Cases: 72, Shards: 6, Timeout: 10 * min, ShrinkTime: 30 * sec},
+		Thorough: tierCfg{Cases: 1200, Shards: 14, Timeout: 60 * min, ShrinkTime: 5 * min}}),
+	"C11": one(part{Pkg: "./props/static", Test: "TestC11",
+		Quick:    tierCfg{Cases: 96, Shards: 6, Timeout: 10 * min, ShrinkTime: 30 * sec},
+		Thorough: tierCfg{Cases: 1500, Shards: 14, Timeout: 60 * min, ShrinkTime: 5 * min}}),
 }
